@@ -66,10 +66,13 @@ def run(ctx):
             ctx.evaluations += res['requests']; ctx.distinct_nontrivial += res['misses']; ctx.samples += res['samples'][:1]
             ctx.cov.setdefault('system', []).append({k: v for k, v in res.items() if k not in ('fails', 'samples')})
             monitor_failures(ctx, res['fails'], findings, 'rustc history monitor', rp)
+        res = sys_c05.codegen_options(os.path.join(ctx.work, 'sysg'), 'c05g')
+        ctx.evaluations += res['requests']; ctx.cov['codegen_option_scenarios'] = res['codegen_scenarios']; monitor_failures(ctx, res['fails'], findings, 'rustc codegen-option scenarios', rp)
         line, fails = sys_c05.extern_alias(os.path.join(ctx.work, 'sysa'), 'c05a')
         ctx.samples.append(line); monitor_failures(ctx, fails, findings, 'extern alias witness replay', rp)
     ctx.rules.append('framing: random OsString / String / PathBuf values through a write-only Hasher; system: histories over a crate with a module, include_str!, env! / option_env! of a plain, a CARGO_PKG_* and a CARGO_REGISTRIES_* variable (set / changed / unset, scripted first), a cfg feature and an extern rlib — '
-                     'edit of each input (must miss), reorder --cfg and --extern/-L (must hit), repeat (must hit); every out-dir compared file by file with a direct rustc run')
+                     'edit of each input (must miss), reorder --cfg and --extern/-L (must hit), repeat (must hit); every out-dir compared file by file with a direct rustc run; '
+                     'codegen options that change what rustc leaves in --out-dir (-g, split-debuginfo packed / unpacked, save-temps, opt-level, strip, embed-bitcode, codegen-units), each twice (miss, hit)')
     ctx.assumptions += ["rustc's dep-info lists every source file and env! variable (assumed complete)", 'the whole Rust key is tied byte-exactly (h_rustkey) for crates without static libraries and json targets; those two digests are covered by the system monitor only']
     ctx.notes.append('not modelled: the outputs computation of the rust hasher (rlib/rmeta/dep-info fix-ups from `rustc --print file-names`); partial')
 
